@@ -48,7 +48,7 @@ async fn lib_attempt(addr: &str, ca: &Path, cert: &Path, key: &Path, topic: &str
 }
 
 pub fn run(rep: &mut StageReport, tier: &str, _seed: u64) {
-    let rounds = if tier == "thorough" { 40 } else { 2 };
+    let rounds = if tier == "thorough" { 40 } else { 6 };
     rep.max_samples = 14;
     let rt = runtime(4);
     let mark = panic_mark();
